@@ -6,7 +6,7 @@ from common import *
 import tlslib, json
 
 PROTOS = (257, 771, 772)
-DEFECTS = ["untrusted", "fakeroot", "expired", "notyet", "caexpired", "issuernotca", "issuernobc", "badsig", "cabadsig",
+DEFECTS = ["untrusted", "fakeroot", "fakerootsent", "fakeroot1", "expired", "notyet", "caexpired", "issuernotca", "issuernobc", "badsig", "cabadsig",
            "wrongissuerkey", "signkeymismatch", "leafku", "pathlen"]
 TLCP_ONLY = ["enckeymismatch", "encbadsig", "encexpired"]
 
